@@ -106,4 +106,4 @@ def run(ctx):
     ctx.tie_failures = [t for t in ctx.tie_failures if 'process exit' not in t]
     ctx.oracle.update({'evaluations': n_eval, 'distinct_nontrivial': len(keys), 'malformed_kinds': kinds, 'binary_runs': runs, 'binary_outcomes': outcomes,
                        'rule': 'all correspondence components (accepted inputs of all variants, prior contents zero or garbage) and byte/token mutations of adjacency and affinity files (ragged rows, extra/missing columns and layers, out-of-range and duplicated layer ids, comments, blank lines, non-numeric tokens, huge numbers, binary bytes) through the in-process readers and the real binary, all under ASan+UBSan+LSan with assertions: a report, an assertion failure or an abnormal exit of the harness is a violation. distinct = component / mutation kind'})
-    ctx.samples = [{'malformed': bytes.fromhex(mal[0].split()[2]).decode('latin-1')}]
+    ctx.samples = [{'malformed': bytes.fromhex(t.split()[-1] if len(t.split()) > (2 if t.startswith('PARSE') else 6) else '').decode('latin-1')} for t in mal[:2]]
